@@ -429,3 +429,78 @@ def issue_kind_rule(ctx, rep, modules, rule='SIG-K'):
                     n += 1
                     rep.ob(rule, rel, f.qual, '%s -> %s' % (norm(call), t.qual), not problems, '; '.join(problems))
     return n
+
+
+# ---------------------------------------------------------------------------------------------------------------------
+# IDX-1  no constant index into a list that was just filtered
+def _filtered_list(e):
+    if isinstance(e, ast.ListComp) and any(g.ifs for g in e.generators):
+        return True
+    if isinstance(e, ast.Call) and isinstance(e.func, ast.Name) and e.func.id in ('list', 'tuple', 'sorted') and len(e.args) == 1:
+        a = e.args[0]
+        if isinstance(a, ast.GeneratorExp) and any(g.ifs for g in a.generators):
+            return True
+        if isinstance(a, ast.Call) and isinstance(a.func, ast.Name) and a.func.id == 'filter':
+            return True
+    return False
+
+
+def idx1_sites(fn_node):
+    from ..facts import facts_at
+    from ..model import reaching_values
+    out = []
+    for n in walk_own(fn_node):
+        if not (isinstance(n, ast.Subscript) and isinstance(n.ctx, ast.Load)):
+            continue
+        ix = n.slice
+        if not (isinstance(ix, ast.Constant) and isinstance(ix.value, int)
+                or isinstance(ix, ast.UnaryOp) and isinstance(ix.operand, ast.Constant) and isinstance(ix.operand.value, int)):
+            continue
+        v = n.value
+        src = None
+        if _filtered_list(v):
+            src = v
+        elif isinstance(v, ast.Name):
+            vals = reaching_values(fn_node, v)
+            if vals and all(_filtered_list(x) for x in vals):
+                # an emptiness test of the name on the way?
+                texts = [t for t, pos in facts_at(n, fn_node) if pos]
+                if not any(t == v.id or t.startswith('len(%s)' % v.id) for t in texts):
+                    src = vals[0]
+        if src is None:
+            continue
+        # inside a try that absorbs IndexError?
+        child, p = n, getattr(n, '_parent', None)
+        covered = False
+        while p is not None and p is not fn_node:
+            if isinstance(p, ast.Try) and any(child is b or any(child is s for s in ast.walk(b)) for b in p.body):
+                for h in p.handlers:
+                    t = norm(h.type) if h.type is not None else 'BaseException'
+                    if any(x in t for x in ('IndexError', 'LookupError', 'Exception')):
+                        covered = True
+            child, p = p, getattr(p, '_parent', None)
+        if not covered:
+            out.append((n, src))
+    return out
+
+
+def idx_1(ctx, rep, modules):
+    rep.rule('IDX-1', 'no constant index ([0], [-1] ...) into a list that was just built with a filter ([x for x in xs if c], '
+                      'list(filter(...))) unless its emptiness was tested or IndexError is handled: a filter can leave nothing, '
+                      'and the IndexError escapes the listing')
+    probe = ast.parse("def f(children, spacing):\n    equals = [c for c in children if c.type == 'operator' and c.end_pos <= spacing.start_pos][-1]\n    return equals\n").body[0]
+    for parent in ast.walk(probe):
+        for child in ast.iter_child_nodes(parent):
+            child._parent = parent
+    if len(idx1_sites(probe)) != 1:
+        raise AnalysisError('IDX-1: the matcher does not report its built-in example')
+    n_funcs = 0
+    for rel in modules:
+        mod = ctx.prog.mod(rel)
+        for f in sorted(mod.funcs.values(), key=lambda f: f.qual):
+            n_funcs += 1
+            for n, src in idx1_sites(f.node):
+                rep.ob('IDX-1', rel, f.qual, norm(n), False,
+                       'the list %s can be empty (nothing passes the filter): the constant index raises IndexError, which nothing '
+                       'on the way to the caller of the listing handles' % norm(src), witness=norm(n))
+    rep.ob('IDX-1', 'parso', '<%d functions>' % n_funcs, 'no constant index into a freshly filtered list', True)
